@@ -48,7 +48,9 @@ def world_spec(shape_p, shape_q):
             'D': ('container', 'inf L', [('tea', '1 mL')]),
             'P': ('plate', '500 uL', shape_p[0], shape_p[1]), 'Q': ('plate', '500 uL', shape_q[0], shape_q[1]),
             # another version of plate P: a distinct object carrying the same name, with other contents
-            'Pv': ('plate', '500 uL', shape_p[0], shape_p[1], 'P')}
+            'Pv': ('plate', '500 uL', shape_p[0], shape_p[1], 'P'),
+            # a plate of which only the first well was ever filled: drawing from a never-filled well is refused
+            'Pe': ('plate', '500 uL', shape_p[0], shape_p[1])}
 
 
 def seed(shape_p, shape_q):
@@ -64,6 +66,7 @@ def seed(shape_p, shape_q):
         for c in range(1, shape_p[1] + 1):
             k += 1
             h.append(T('C2', ['Pv', f"({r}, {c})"], f"{40 - 5 * k} uL"))
+    h.append(T('C', ['Pe', "(1, 1)"], "30 uL"))
     k = 0
     for r in range(1, shape_q[0] + 1):
         for c in range(1, shape_q[1] + 1):
@@ -92,6 +95,9 @@ def cases(shape_p, shape_q):
         # '0.38 g' of tea read as pure solvent would be 523 uL (> the 500 uL wells); the fuller wells really end below 500 uL
         for q in ('200 uL', '0.1 g', '20 uL', '0.38 g'):
             out.append({'op': 'fill_to', 'obj': ref_of('P', g), 'solvent': 'tea', 'q': q})
+    for g in gp:
+        out.append(T(ref_of('Pe', g), 'D', '2 uL'))            # refused as soon as a never-filled well is addressed
+        out.append(T(ref_of('Pe', g), ref_of('Q', gq[0]), '2 uL'))
     for g1, g2 in itertools.product(gp, gq):
         for q in ('3 uL', '1 mg'):
             out.append(T(ref_of('P', g1), ref_of('Q', g2), q))
@@ -275,7 +281,7 @@ def judge(pp, subs, world, act, via):
     post = e1.commit(world, obs)
     upre, upost = dict(monitors.all_units(world)), dict(monitors.all_units(post))
     for addr, c in upre.items():
-        if addr[0] not in ('P', 'Q', 'C', 'D', 'C2', 'Pv'):
+        if addr[0] not in ('P', 'Q', 'C', 'D', 'C2', 'Pv', 'Pe'):
             continue
         if addr in want:
             d = same_container(upost[addr], want[addr])
